@@ -130,18 +130,42 @@ def reaching_def(name: str, at: ast.AST) -> ast.AST | None:
     return None
 
 
-def expand(e: ast.AST, at: ast.AST | None = None, depth: int = 4, stop: Iterable[str] = ()) -> ast.AST:
+def _mutated_in_place(name: str, at: ast.AST) -> bool:
+    fn = at
+    while fn is not None and not isinstance(fn, FuncNode):
+        fn = parent(fn)
+    if fn is None:
+        return False
+    cache = fn.__dict__.setdefault("_mutated_names", None)
+    if cache is None:
+        cache = set()
+        for x in ast.walk(fn):
+            if isinstance(x, ast.Call) and isinstance(x.func, ast.Attribute) and x.func.attr in MUTATORS and isinstance(x.func.value, ast.Name):
+                cache.add(x.func.value.id)
+            elif isinstance(x, ast.Subscript) and isinstance(x.ctx, (ast.Store, ast.Del)) and isinstance(x.value, ast.Name):
+                cache.add(x.value.id)
+            elif isinstance(x, ast.AugAssign) and isinstance(x.target, ast.Name):
+                cache.add(x.target.id)
+        fn.__dict__["_mutated_names"] = cache
+    return name in cache
+
+
+def expand(e: ast.AST, at: ast.AST | None = None, depth: int = 4, stop: Iterable[str] = (), provenance: bool = False) -> ast.AST:
     """Substitute straight-line local definitions into ``e`` (copy; original untouched).
-    Names in ``stop`` are kept opaque."""
+    Names in ``stop`` are kept opaque.  By default a name bound to a container that is later filled in place is kept
+    opaque too (its defining expression is not its value at the use); ``provenance=True`` substitutes it anyway, for rules
+    that ask where an object comes from rather than what it holds."""
     at = at if at is not None else e
-    return _expand_lockstep(e, at, depth, frozenset(), frozenset(stop))
+    return _expand_lockstep(e, at, depth, frozenset(), frozenset(stop), provenance)
 
 
-def _expand_lockstep(e: ast.AST, at: ast.AST, depth: int, bound: frozenset = frozenset(), stop: frozenset = frozenset()) -> ast.AST:
+def _expand_lockstep(e: ast.AST, at: ast.AST, depth: int, bound: frozenset = frozenset(), stop: frozenset = frozenset(), prov: bool = False) -> ast.AST:
     if isinstance(e, ast.Name) and isinstance(e.ctx, ast.Load) and depth > 0 and e.id not in bound and e.id not in stop:
         d = reaching_def(e.id, at)
+        if d is not None and not prov and _mutated_in_place(e.id, at):
+            d = None  # the binding is a container that is filled in place: its initial value says nothing about the use
         if d is not None and not isinstance(d, (ast.Await, ast.Yield, ast.YieldFrom)):
-            return _expand_lockstep(d, d, depth - 1, frozenset(), stop)
+            return _expand_lockstep(d, d, depth - 1, frozenset(), stop, prov)
         return ast.Name(id=e.id, ctx=ast.Load())
     if isinstance(e, ast.Lambda):
         bound = bound | {a.arg for a in e.args.args + e.args.kwonlyargs + e.args.posonlyargs}
@@ -153,10 +177,105 @@ def _expand_lockstep(e: ast.AST, at: ast.AST, depth: int, bound: frozenset = fro
     new = copy.copy(e)
     for fld, val in ast.iter_fields(e):
         if isinstance(val, ast.AST):
-            setattr(new, fld, _expand_lockstep(val, at, depth, bound, stop))
+            setattr(new, fld, _expand_lockstep(val, at, depth, bound, stop, prov))
         elif isinstance(val, list):
-            setattr(new, fld, [(_expand_lockstep(v, at, depth, bound, stop) if isinstance(v, ast.AST) else v) for v in val])
+            setattr(new, fld, [(_expand_lockstep(v, at, depth, bound, stop, prov) if isinstance(v, ast.AST) else v) for v in val])
     return new
+
+
+
+# ---------------------------------------------------------------------------- flow-insensitive dependence slice
+
+
+class Slice:
+    """What the value of a local may depend on: every right-hand side that can flow into it (transitively through
+    locals of the same function), the tests of the branches that choose between its assignments, and the leaves
+    (names without a local assignment, i.e. parameters/globals, or names in ``stop``)."""
+
+    def __init__(self) -> None:
+        self.exprs: list[ast.AST] = []
+        self.leaves: set[str] = set()
+        self.locals: set[str] = set()
+
+    def calls(self) -> list[ast.Call]:
+        return [c for e in self.exprs for c in ast.walk(e) if isinstance(c, ast.Call)]
+
+    def attrs(self) -> set[str]:
+        return {ast.unparse(a) for e in self.exprs for a in ast.walk(e) if isinstance(a, ast.Attribute)}
+
+    def text(self) -> str:
+        return " ; ".join(ast.unparse(e) for e in self.exprs)
+
+
+def dep_slice(fn: ast.AST, start: ast.AST | str, stop: Iterable[str] = ()) -> Slice:
+    """Over-approximate (may) dependence of ``start`` (a name or an expression inside fn). Sound for "depends on
+    nothing but …" rules: every assignment to a name anywhere in fn counts, whatever the path."""
+    stop = set(stop)
+    assigned: dict[str, list[tuple[ast.AST, ast.AST]]] = {}
+    for st in ast.walk(fn):
+        if isinstance(st, ast.Assign):
+            for t in st.targets:
+                for n in ast.walk(t):
+                    if isinstance(n, ast.Name):
+                        assigned.setdefault(n.id, []).append((st.value, st))
+        elif isinstance(st, (ast.AnnAssign, ast.AugAssign)) and isinstance(st.target, ast.Name) and st.value is not None:
+            assigned.setdefault(st.target.id, []).append((st.value, st))
+        elif isinstance(st, ast.NamedExpr) and isinstance(st.target, ast.Name):
+            assigned.setdefault(st.target.id, []).append((st.value, st))
+        elif isinstance(st, (ast.For, ast.AsyncFor, ast.comprehension)):
+            for n in ast.walk(st.target):
+                if isinstance(n, ast.Name):
+                    assigned.setdefault(n.id, []).append((st.iter, st))
+        elif isinstance(st, (ast.With, ast.AsyncWith)):
+            for it in st.items:
+                if it.optional_vars is not None:
+                    for n in ast.walk(it.optional_vars):
+                        if isinstance(n, ast.Name):
+                            assigned.setdefault(n.id, []).append((it.context_expr, st))
+    out = Slice()
+    work: list[str] = []
+
+    def push(e: ast.AST) -> None:
+        out.exprs.append(e)
+        for x in ast.walk(e):
+            if isinstance(x, ast.Name) and isinstance(x.ctx, ast.Load):
+                work.append(x.id)
+
+    if isinstance(start, str):
+        work.append(start)
+    else:
+        push(start)
+    seen: set[str] = set()
+    while work:
+        n = work.pop()
+        if n in seen:
+            continue
+        seen.add(n)
+        if n in stop or n not in assigned:
+            out.leaves.add(n)
+            continue
+        out.locals.add(n)
+        defs = assigned[n]
+        for v, st in defs:
+            push(v)
+        if len(defs) > 1:
+            # the branches that choose between the assignments
+            for v, st in defs:
+                p = parent(st)
+                while p is not None and p is not fn:
+                    if isinstance(p, (ast.If, ast.While)) and not any(p.test is e for e in out.exprs):
+                        inside = sum(1 for _v, s2 in defs if any(y is s2 for y in ast.walk(p)))
+                        if inside < len(defs) or _chooses(p, defs):
+                            push(p.test)
+                    p = parent(p)
+    return out
+
+
+def _chooses(ifnode: ast.AST, defs) -> bool:
+    """Does this If assign the name differently in its two arms (so that its test selects the value)?"""
+    in_body = [s for _v, s in defs if any(y is s for b in ifnode.body for y in ast.walk(b))]
+    in_else = [s for _v, s in defs if any(y is s for b in getattr(ifnode, "orelse", []) for y in ast.walk(b))]
+    return bool(in_body) and bool(in_else)
 
 
 # ---------------------------------------------------------------------------- predicate normal form
@@ -186,6 +305,19 @@ def atoms(test: ast.AST, positive: bool = True) -> list[tuple[str, bool]]:
             for v in test.values:
                 out += atoms(v, positive)
             return out
+        # not splittable: a disjunction known true, or a conjunction known false.  Both are written as one
+        # canonical disjunction of signed literals (De Morgan), so that `not (a and b)` and `not a or not b` agree.
+        lits: list[str] = []
+        simple = True
+        for v in test.values:
+            sub = atoms(v, positive)
+            if len(sub) != 1:
+                simple = False
+                break
+            t_, p_ = sub[0]
+            lits.append(("" if p_ else "not ") + t_)
+        if simple:
+            return [("(" + " or ".join(sorted(set(lits))) + ")", True)]
         return [(_norm_atom(test)[0], positive)]
     txt, pol = _norm_atom(test)
     return [(txt, positive == pol)]
@@ -251,11 +383,17 @@ def _len_truthiness(op: type, l: ast.AST, r: ast.AST) -> tuple[str, bool] | None
     return None
 
 
-def facts_at(cfg: CFG, node: Node, *, expand_locals: bool = True, labels_excluded: Iterable[str] = ()) -> set[tuple[str, bool]]:
+def facts_at(cfg: CFG, node: Node, *, expand_locals: bool = True, labels_excluded: Iterable[str] = (), mod=None, _depth: int = 2) -> set[tuple[str, bool]]:
     """Atomic facts that hold on every path from entry to ``node`` (from dominating branch
     edges; loop-carried re-assignment of tested names is NOT tracked — callers use this for
-    tests over values that are stable between test and use, and say so)."""
+    tests over values that are stable between test and use, and say so).  A fact that is a call of
+    a boolean helper of the same module is expanded into the facts its truth value implies."""
+    from .index import enclosing_class, module_of
+
     out: set[tuple[str, bool]] = set()
+    if mod is None and _depth > 0:
+        mod = module_of(cfg.fn)
+    cls = enclosing_class(cfg.fn) if cfg.fn is not None else None
     for tnode, label in cfg.guards(node, labels_excluded=labels_excluded):
         if tnode.kind != "test":
             continue
@@ -264,7 +402,28 @@ def facts_at(cfg: CFG, node: Node, *, expand_locals: bool = True, labels_exclude
         for variant in ([test, expand(test, tnode.ast)] if expand_locals else [test]):
             for a in atoms(variant, pos):
                 out.add(a)
+            if mod is not None and _depth > 0:
+                for call, cpos in _helper_calls_in(variant, pos):
+                    from .inline import implied_facts
+                    for a in implied_facts(mod, call, cpos, cls, _depth):
+                        out.add(a)
     return out
+
+
+def _helper_calls_in(test: ast.AST, positive: bool) -> list[tuple[ast.Call, bool]]:
+    """(call, polarity) for each conjunct of the known truth value that is a plain call f(...) / self.f(...)."""
+    if isinstance(test, ast.UnaryOp) and isinstance(test.op, ast.Not):
+        return _helper_calls_in(test.operand, not positive)
+    if isinstance(test, ast.BoolOp):
+        if isinstance(test.op, ast.And) and positive or isinstance(test.op, ast.Or) and not positive:
+            out = []
+            for v in test.values:
+                out += _helper_calls_in(v, positive)
+            return out
+        return []
+    if isinstance(test, ast.Call) and (isinstance(test.func, ast.Name) or (isinstance(test.func, ast.Attribute) and isinstance(test.func.value, ast.Name) and test.func.value.id == "self")):
+        return [(test, positive)]
+    return []
 
 
 def has_fact(facts: set[tuple[str, bool]], text: str, polarity: bool = True) -> bool:
